@@ -264,6 +264,23 @@ def conservation(ctx):
             same = item == a1k
         ctx.check(ok2 and same, 'C10-1.conservation', b.fid + '|same vector', 'pwr_out is the sum of the share vector and each unit is solved with its element of that same vector',
                   'pwr_out = %s ; per-unit argument = %s' % (show(po, an.names)[:120], show(calls[0].argvals[1], an.names)[:120] if calls else None), ctx.where(b))
+        # a request of exactly zero: every unit still gets a share (0) — the per-unit loop zips the units with the share vector and
+        # stops at the shorter of the two, so a vector with fewer entries leaves units unsolved with their previous power
+        item0 = po[2][2] if ok2 and po[2][0] == 'seq' else None
+        zb = None
+        if item0 is not None and item0[0] == 'gamma' and item0[1] == mk('gt', req.t, ZERO) and item0[3][0] == 'gamma' and item0[3][1] == mk('lt', req.t, ZERO):
+            zb = item0[3][3]
+        okz = zb is not None and zb[0] == 'elem' and zb[1] == ('uf', 'vec::from_elem', ZERO, ('len', ('pre', (('obj', 1), ('f', 'loco_vec')))))
+        ctx.check(okz, 'C10-1.conservation', b.fid + '|zero request', 'for a request of exactly 0 the share vector is one 0 per locomotive',
+                  'share vector of the zero branch: %s' % (show(zb[1] if zb is not None and zb[0] == 'elem' else zb, an.names)[:160] if zb is not None else
+                                                           'request is not split three ways on its sign: %s' % (show(item0, an.names)[:160] if item0 is not None else None)), ctx.where(b))
+        zips = [c for c in an.calls if '>::zip' in c.callee]
+        def sl(t):
+            return t[2] if t[0] == 'iter' and t[1] == 'slice' and len(t) > 2 else None
+        okzip = len(zips) == 1 and len(zips[0].argvals) == 2 and sl(zips[0].argvals[0]) == (('obj', 1), ('f', 'loco_vec')) and vec_src is not None \
+            and sl(zips[0].argvals[1]) is not None and [('slice', sl(zips[0].argvals[1]))] == [tuple(x) for x in vec_src]
+        ctx.check(okzip, 'C10-1.conservation', b.fid + '|units zipped with shares',
+                  'the per-unit loop pairs all of loco_vec with the share vector that was summed', 'zip arguments: %s (summed vector: %s)' % ([[show(a, an.names)[:80] for a in z.argvals] for z in zips], vec_src), ctx.where(b))
         # deficits
         Mr = sv.pre('pwr_out_max_reves'); Rm = sv.pre('pwr_regen_max')
         prove(ctx, 'C10-1.conservation', b.fid + '|pwr_out_deficit', an, 'eq', sv.post('pwr_out_deficit'), (req - Mr).max(0), assume=[], note='deficit = max(request − battery capability, 0)')
